@@ -110,8 +110,8 @@ pub static USE_SHUTTLE: std::sync::atomic::AtomicBool = std::sync::atomic::Atomi
 
 fn run_generator(gen: Gen) {
     match gen {
-        Gen::Layout => crate::gens::layout::run(),
-        Gen::Likely => crate::gens::likely::run(),
+        Gen::Layout => crate::gens::layout::__gensim_entry(),
+        Gen::Likely => crate::gens::likely::__gensim_entry(),
     }
 }
 
@@ -191,6 +191,65 @@ impl shuttle::scheduler::Scheduler for SimSchedNoWorld {
     }
 }
 
+// ---------------------------------------------------------------------------------------------
+// run registry (watchdog): which seeded run is each worker executing, and since when
+// ---------------------------------------------------------------------------------------------
+pub static RUNS_DONE: std::sync::atomic::AtomicU64 = std::sync::atomic::AtomicU64::new(0);
+
+#[derive(Clone, Debug)]
+pub struct RunLabel {
+    pub gen: Gen,
+    pub batch: &'static str,
+    pub seed: u64,
+    pub run: u64,
+}
+
+thread_local! {
+    static LABEL: std::cell::RefCell<Option<RunLabel>> = const { std::cell::RefCell::new(None) };
+    static SLOT: std::cell::Cell<usize> = const { std::cell::Cell::new(usize::MAX) };
+}
+
+fn active() -> &'static std::sync::Mutex<Vec<Option<(std::time::Instant, RunLabel)>>> {
+    static A: std::sync::OnceLock<std::sync::Mutex<Vec<Option<(std::time::Instant, RunLabel)>>>> = std::sync::OnceLock::new();
+    A.get_or_init(|| std::sync::Mutex::new(Vec::new()))
+}
+
+/// Tell the watchdog what the next `execute` on this thread is (seeded runs only).
+pub fn set_label(l: Option<RunLabel>) {
+    LABEL.with(|c| *c.borrow_mut() = l);
+}
+
+fn enter_run() {
+    let Some(l) = LABEL.with(|c| c.borrow().clone()) else { return };
+    let mut a = active().lock().unwrap_or_else(|e| e.into_inner());
+    let mut slot = SLOT.with(|s| s.get());
+    if slot == usize::MAX {
+        slot = a.len();
+        a.push(None);
+        SLOT.with(|s| s.set(slot));
+    }
+    a[slot] = Some((std::time::Instant::now(), l));
+}
+
+fn leave_run() {
+    RUNS_DONE.fetch_add(1, std::sync::atomic::Ordering::Relaxed);
+    let slot = SLOT.with(|s| s.get());
+    if slot != usize::MAX {
+        let mut a = active().lock().unwrap_or_else(|e| e.into_inner());
+        a[slot] = None;
+    }
+}
+
+/// the labelled run that has been executing for longer than `limit`, if any
+pub fn overdue(limit: std::time::Duration) -> Option<(RunLabel, std::time::Duration)> {
+    let a = active().lock().unwrap_or_else(|e| e.into_inner());
+    a.iter()
+        .flatten()
+        .map(|(t, l)| (l.clone(), t.elapsed()))
+        .filter(|(_, d)| *d > limit)
+        .max_by_key(|(_, d)| *d)
+}
+
 const NEEDS_SHUTTLE: &str = "Shuttle primitive outside of a Shuttle test";
 
 pub fn execute_with(
@@ -235,6 +294,7 @@ fn execute_once(
         fresh.stats.shuttle_runs = 1;
     }
     world::install(fresh);
+    enter_run();
     let r = if under_shuttle {
         catch_unwind(AssertUnwindSafe(|| {
             let runner = shuttle::Runner::new(SimSched { started: false }, shuttle_config());
@@ -243,6 +303,7 @@ fn execute_once(
     } else {
         catch_unwind(AssertUnwindSafe(|| run_generator(gen)))
     };
+    leave_run();
     let w = world::uninstall();
     let mut exit_code = None;
     let mut panic = match r {
